@@ -1,9 +1,12 @@
 //! C02, manager level: the node lists in FIND_NODE / FIND_VALUE replies of REAL nodes (2..12 nodes over the
 //! in-memory router) against the rule of Props/C02.v `C02_reply`: the nearest `cap` of everything the replying
 //! node knows (table plus connected peers), each peer once and under its transport id, never the replying
-//! node itself, ascending distance, at most DHT_CLOSEST_NODES_COUNT.  What a node knows can grow while it
-//! answers (the requester dials it), so membership is checked against the knowledge AFTER the lookup and
-//! completeness against the knowledge BEFORE it.  Every reply becomes a Coq case (Model/Routing.v `rcase`):
+//! node itself, ascending distance, at most DHT_CLOSEST_NODES_COUNT.  What a node knows is READ from it before
+//! and after every lookup: the entries of its routing table (verif-hooks accessor) plus its connected peers -
+//! not inferred from the connections the harness made, because the admission gates (C13) may keep a connected
+//! peer out of the table, and such a peer stops being known when its connection closes.  Knowledge can change
+//! while a node answers (the requester dials it), so membership is checked against what was known at either
+//! end of the lookup and completeness against what was known at both ends.  Every reply becomes a Coq case (Model/Routing.v `rcase`):
 //! `check_rcase` evaluates the model's `reply_nodes` on it (meaning: Props/C02.v `C02_reply_check`),
 //! `prop_rcase` the conclusion of `C02_reply`; the same predicate is also evaluated here.  The requester is
 //! dropped AFTER the cut at the cap (filter_response_nodes), so a reply may be one short when the requester is
@@ -35,8 +38,21 @@ fn dist(id: &str, key: &[u8; 32]) -> [u8; 32] {
     d
 }
 
-async fn known(n: &Node) -> HashSet<String> {
+async fn connected(n: &Node) -> HashSet<String> {
     n.manager.get_connected_peers().await.into_iter().map(|p| p.peer_id).collect()
+}
+
+/// What a node knows, as the property defines it: its routing table plus its connected peers.  Table entries
+/// are keyed by DHT key; each is named by the transport id of the node of this world that has that key (the
+/// identifier a reply must use), or by the hex key if no node of the world has it.  A peer the admission
+/// gates refused (IP diversity: e.g. a second IPv4-mapped address in one /64; property C13, an input here)
+/// is known only while it is connected.
+async fn known(n: &Node, tid_by_key: &HashMap<[u8; 32], String>) -> HashSet<String> {
+    let mut k = connected(n).await;
+    for (key, _addr) in n.manager.verif_routing_table_entries().await {
+        k.insert(tid_by_key.get(&key).cloned().unwrap_or_else(|| hex::encode(key)));
+    }
+    k
 }
 
 async fn run_world(wi: u64, mut rng: Rng) -> anyhow::Result<Summary> {
@@ -72,35 +88,50 @@ async fn run_world(wi: u64, mut rng: Rng) -> anyhow::Result<Summary> {
     }
     let self_ids: Vec<HashSet<String>> = (0..n).map(|i| [names[i].clone(), nodes[i].tid.clone(), hex::encode(dht_key_of(&names[i]))].into_iter().collect()).collect();
     let tid_index: HashMap<String, usize> = nodes.iter().enumerate().map(|(i, x)| (x.tid.clone(), i)).collect();
+    let tid_by_key: HashMap<[u8; 32], String> = nodes.iter().map(|x| (dht_key_of(&x.tid), x.tid.clone())).collect();
     let mut idx: HashMap<String, usize> = HashMap::new();
     let mut cid = 800000u64 + wi * 1000;   // disjoint from the case ids of the main C02 harness
-    // what a node knows = every peer it has ever been connected to: a closed connection leaves the routing-table
-    // entry (and the name it is listed under) in place
-    let mut ever: Vec<HashSet<String>> = vec![];
-    for x in &nodes { ever.push(known(x).await); }
+    // what a node knows = its routing table plus its connected peers, read before and after every lookup.  A
+    // closed connection leaves the routing-table entry (and the name it is listed under) in place; a peer the
+    // admission gates kept out of the table stops being known when its connection closes.
     for _ in 0..6 {
         // every second world: connections close between the lookups (the peer stays known and must keep its name)
         if wi % 2 == 1 && rng.chance(2, 3) {
             let i = rng.below(n as u64) as usize;
-            let mut cur: Vec<String> = known(&nodes[i]).await.into_iter().collect(); cur.sort();
+            let mut cur: Vec<String> = connected(&nodes[i]).await.into_iter().collect(); cur.sort();
             if !cur.is_empty() {
                 let j = rng.pick(&cur).clone();
                 let _ = nodes[i].transport.disconnect_peer(&j).await;
+                // the manager learns of it through its event loop: wait until it has, so that the event cannot
+                // be processed in the middle of the next lookup (between the two readings of what the node knows)
+                let (mg, jj) = (nodes[i].manager.clone(), j.clone());
+                wait_until(|| { let (mg, jj) = (mg.clone(), jj.clone()); async move { !mg.get_connected_peers().await.iter().any(|p| p.peer_id == jj) } }, Duration::from_secs(3)).await;
                 tokio::time::sleep(Duration::from_millis(60)).await;
                 sum.count("connection_closed");
             }
         }
         let o = rng.below(n as u64) as usize;
         let key: [u8; 32] = match rng.below(4) { 0 => dht_key_of(&nodes[rng.below(n as u64) as usize].tid), 1 => [0u8; 32], _ => { let b = rng.bytes(32); let mut k = [0u8; 32]; k.copy_from_slice(&b); k } };
-        for (i, x) in nodes.iter().enumerate() { let k = known(x).await; ever[i].extend(k); }
-        let before: Vec<HashSet<String>> = ever.clone();
+        let mut seen_before: Vec<HashSet<String>> = vec![];
+        for x in nodes.iter() { seen_before.push(known(x, &tid_by_key).await); }
         net.take_trace();
         let use_get = rng.chance(1, 3);
         if use_get { let _ = tokio::time::timeout(Duration::from_secs(30), nodes[o].manager.get(&key)).await; }
         else { let _ = tokio::time::timeout(Duration::from_secs(30), nodes[o].manager.find_closest_nodes(&key, *rng.pick(&[3usize, 8, 20]))).await; }
         let trace = net.take_trace();
-        for (i, x) in nodes.iter().enumerate() { let k = known(x).await; ever[i].extend(k); }
-        let after: Vec<HashSet<String>> = ever.clone();
+        let mut seen_after: Vec<HashSet<String>> = vec![];
+        for x in nodes.iter() { seen_after.push(known(x, &tid_by_key).await); }
+        // Knowledge normally only grows during a lookup (the requester dials the replier), but the event of a
+        // connection closed just before may still be in flight: completeness is demanded of what was known at
+        // both ends (`before`), membership is allowed in what was known at either end (`after`).
+        let before: Vec<HashSet<String>> = (0..n).map(|i| seen_before[i].intersection(&seen_after[i]).cloned().collect()).collect();
+        let after: Vec<HashSet<String>> = (0..n).map(|i| seen_before[i].union(&seen_after[i]).cloned().collect()).collect();
+        for i in 0..n {
+            let c = connected(&nodes[i]).await;
+            sum.add("known_not_connected", after[i].iter().filter(|u| !c.contains(*u)).count() as u64);
+            sum.add("connected_not_in_table", { let t: HashSet<[u8; 32]> = nodes[i].manager.verif_routing_table_entries().await.into_iter().map(|e| e.0).collect(); c.iter().filter(|u| !t.contains(&dht_key_of(u))).count() as u64 });
+            if before[i].len() != after[i].len() { sum.count("knowledge_changed_during_lookup"); }
+        }
         for e in trace.iter().filter(|e| !e.is_request && e.result.as_deref() == Some("NodesFound")) {
             let Some(&x) = tid_index.get(&e.from) else { continue };
             let l = &e.nodes;
@@ -140,7 +171,11 @@ async fn run_world(wi: u64, mut rng: Rng) -> anyhow::Result<Summary> {
             if !problems.is_empty() {
                 sum.violation(cid, "a node list in a FIND_NODE / FIND_VALUE reply violates the closest-known rule", &[],
                     json!({"world": wi, "replier": x, "key": hex::encode(key), "reply": l.iter().map(|i| i[..8.min(i.len())].to_string()).collect::<Vec<_>>(),
-                           "known_before": before[x].iter().map(|i| i[..8].to_string()).collect::<Vec<_>>(), "problems": problems}));
+                           "known_before": before[x].iter().map(|i| i[..8].to_string()).collect::<Vec<_>>(), "problems": problems,
+                           "node_index_of": before[x].iter().map(|i| (i[..8].to_string(), tid_index.get(i).map(|&n| n as i64).unwrap_or(-1))).collect::<HashMap<String, i64>>(),
+                           "replier_id": nodes[x].tid.clone(), "replier_name": names[x].clone(),
+                           "connected_now": connected(&nodes[x]).await.iter().map(|i| i[..8].to_string()).collect::<Vec<_>>(),
+                           "table_now": nodes[x].manager.verif_routing_table_entries().await.iter().map(|e| format!("{}@{}", &hex::encode(e.0)[..8], e.1)).collect::<Vec<_>>()}));
             }
             if sum.samples.len() < 2 { sum.samples.push(json!({"replier": x, "key": hex::encode(key), "reply_len": l.len(), "known": before[x].len()})); }
             cid += 1;
@@ -159,7 +194,7 @@ fn main() {
     let rt = tokio::runtime::Builder::new_multi_thread().worker_threads(8).enable_all().build().unwrap();
     let mut rng = Rng::new(args.seed ^ 0x0c02);
     let mut sum = Summary::default();
-    sum.rule = "manager level: node lists in the FIND_NODE / FIND_VALUE replies of 2..12 real nodes (random connectivity) during lookups and gets for random / peer-equal / zero keys: at most 8, each peer once under its transport id, never the replier itself, ascending distance, members known to the replier, nothing nearer omitted (one slot may go to the requester, which is dropped after the cut); every reply is also evaluated against the model's reply_nodes inside Coq (check_rcase / prop_rcase)".into();
+    sum.rule = "manager level: node lists in the FIND_NODE / FIND_VALUE replies of 2..12 real nodes (random connectivity) during lookups and gets for random / peer-equal / zero keys: at most 8, each peer once under its transport id, never the replier itself, ascending distance, members known to the replier, nothing nearer omitted (one slot may go to the requester, which is dropped after the cut); what a replier knows = its routing-table entries (verif-hooks accessor) plus its connected peers, read before and after each lookup (complete over what is known at both ends, members from what is known at either end); connections are closed between lookups in every second world, and peers the admission gates keep out of the table (a second IPv4-mapped address in one /64) are known only while connected; every reply is also evaluated against the model's reply_nodes inside Coq (check_rcase / prop_rcase)".into();
     let worlds = if args.thorough() { 120 } else { 10 };
     let mut w = CaseWriter::new(&args.out, "cases_c02net", HEADER, "rcase", "check_rcase", "prop_rcase", 120);
     let mut wi = 0;
